@@ -147,6 +147,21 @@ def main() -> int:
                             if not r.startswith(PREFIX[vname]):
                                 rep.violation(f"{vname} schema of {bridge.type_expr(c['type'])} has reference '{r}' without the prefix {PREFIX[vname]}",
                                               {"type": bridge.type_expr(c["type"]), "version": vname, "schema": sch})
+                        # the definitions of a type listed on BOTH sides (merged by compare_schemas) are converted too
+                        if c["type"]["k"] == "obj":
+                            try:
+                                both = definitions_schema(deserialization=[tp], serialization=[tp], version=ver, all_refs=True,
+                                                          additional_properties=addl, **akw)
+                            except TypeError:
+                                both = {}          # the two sides legitimately differ (asymmetric classes): refused
+                            for dname, dsch in both.items():
+                                bad2: set = set()
+                                walk(dsch, vname, bad2, [])
+                                for kw in sorted(bad2):
+                                    rep.violation(f"{vname}: definitions_schema(deserialization=[T], serialization=[T]) of {bridge.type_expr(c['type'])}: "
+                                                  f"definition {dname} uses '{kw}', outside its vocabulary",
+                                                  {"type": bridge.type_expr(c["type"]), "version": vname, "definition": dsch},
+                                                  finding_key=KNOWN_LEAKS.get((vname, kw)))
                         if vname == "oas30":
                             defs = definitions_schema(deserialization=[tp], version=ver, additional_properties=addl, **akw)
                             doc = {"components": {"schemas": {k: oas30_to_2020(v) for k, v in defs.items()}}, "root": oas30_to_2020(sch)}
